@@ -46,7 +46,9 @@ def cond_pool(rng: random.Random, n: int = 60):
     return out
 
 
-INVALID_CONDS = ["[1] O [501]", "[501] X [2]", "([1] U [2]) O [502]", "[501] O [901]", "[1] X [901]"]
+INVALID_CONDS = ["[1] O [501]", "[501] X [2]", "([1] U [2]) O [502]", "[501] O [901]", "[1] X [901]",
+                 # the same kinds of invalidity with the keys at the borders of the ranges (last / first hint key, first / last format key, )
+                 "[900] O [901]", "[901] X [900]", "[6] O [900]", "[500] X [2]", "[1] X [999]", "[500] O [999]"]
 
 
 def gen_expr(rng: random.Random, pool, p_invalid: float = 0.0, p_soll: float = 0.2, allow_prefix: bool = True) -> Dict[str, Any]:
